@@ -14,7 +14,7 @@ RULE = ("positions: case = (abbreviation text — serialised G1 scripts with exp
         "numbering: case = (G1 script with field atoms, html-family syntax, options); oracle = reference rendering with a marking field callback: every empty "
         "attribute value and every empty non-self-closed leaf gets its own marker, markers are 1,2,3… in document order, explicit fields print base+n per value "
         "with disjoint increasing ranges — exact string equality (format off) / white-space-insensitive (format on). "
-        "disjoint: every key of the html/xsl snippet tables alone and nested (exhaustive): marker index sets of different attribute values/text chunks, recovered by an "
+        "disjoint: every key of the html/xsl snippet tables alone and nested (exhaustive), and generated text-only items with 2–3 explicit fields, children and later siblings: marker index sets of different attribute values/text chunks, recovered by an "
         "independent lexer, are pairwise disjoint and increasing in document order. "
         "Non-trivial: ≥ 2 output lines and ≥ 3 callback invocations (positions); ≥ 2 markers (numbering/disjoint).")
 ASSUME = ["callbacks return strings without line breaks and leave the newline/baseIndent strings unchanged; field placeholders are single-line (the stream's push() is documented as 'without newline processing')",
@@ -415,6 +415,36 @@ def alias_cases():
             yield {'abbr': 'ul>li*2>%s[title]' % k, 'syntax': syntax, 'format': False}
 
 
+@st.composite
+def snippet_children_case(draw):
+    """a text-only item whose value has 2–3 explicit fields and which has children (the library prints the children in place of the first
+    field), followed by siblings that receive automatic tabstops: the remaining fields must not share a number with anything else"""
+    pieces = []
+    nf = draw(st.integers(2, 3))
+    for k in range(nf):
+        pieces.append(draw(st.sampled_from(['a ', 'x', '<!-- ', 'q: ', ''])) if k == 0 else draw(st.sampled_from([' b ', ' ', ' -- ', ', '])))
+        n = draw(st.integers(0, 3))
+        ph = draw(st.sampled_from([None, None, 'more', 'end']))
+        pieces.append('${%d}' % n if ph is None else '${%d:%s}' % (n, ph))
+    pieces.append(draw(st.sampled_from(['', ' z', ' -->'])))
+    kids = draw(st.sampled_from(['p', 'p*2', 'p+b', 'img', 'a[title]', 'ul>li*2', 'p[title]{t}', 'x1[u=${1:v}]']))
+    later = draw(st.lists(st.sampled_from(['a', 'img', 'b', 'i[title]', 'input', 'x2[u=${0} w=${1}]', '{k ${0}}']), min_size=1, max_size=3))
+    before = draw(st.sampled_from(['', '', 'b+', 'img+']))
+    form = draw(st.sampled_from(['group', 'group', 'climb', 'nested']))
+    snippet = '{' + ''.join(pieces) + '}>' + kids
+    if form == 'group':
+        abbr = before + '(' + snippet + ')+' + '+'.join(later)
+    elif form == 'climb':
+        abbr = before + snippet + '^' * (kids.count('>') + 1) + '+'.join(later)
+    else:
+        abbr = 'div>' + before + '(' + snippet + ')+' + '+'.join(later)
+    return {'abbr': abbr, 'syntax': draw(st.sampled_from(['html', 'html', 'xml', 'jsx'])), 'format': draw(st.booleans())}
+
+
+def shard_snippet_children(ctx, shard, nshards, n):
+    ctx.run_hypothesis('disjoint', snippet_children_case(), n, seed_key=300 + shard)
+
+
 def shard_aliases(ctx, shard, nshards):
     for case in core.sharded(alias_cases(), shard, nshards):
         ctx.rec.run_case(CHECKS, 'disjoint', case)
@@ -427,3 +457,4 @@ def run(ctx):
     ctx.exhaustive('every key of the html and xsl snippet tables alone, in a sibling/child combination and inside a repeated parent (disjointness + callback positions)')
     ctx.run_parallel('shard_numbering', extra=(ctx.pick(250, 3000),))
     ctx.run_parallel('shard_positions', extra=(ctx.pick(300, 4000),))
+    ctx.run_parallel('shard_snippet_children', extra=(ctx.pick(60, 1500),))
